@@ -112,6 +112,17 @@ def label(repo: Repo) -> List[Ob]:
         ex_orig = ex.orig or ex.node
         builders = {method_call(a.value)[1] for a in walk_no_nested(ex_orig) if isinstance(a, ast.Assign) and src(a.targets[0]) == "self.state" and isinstance(a.value, ast.Call)
                     and method_call(a.value) and src(method_call(a.value)[0]) in ("self", "Polarization") and len(a.value.args) == 1 and src(a.value.args[0]) == "self.state"}
+        # … or a module-level function of the label that both sides call (`_label_amplitudes(self.state)` in expand, `_label_amplitudes(label)` behind
+        # the vector that contract compares with)
+        fn_builders = {c_.func.id for c_ in walk_no_nested(ex_orig) if isinstance(c_, ast.Call) and isinstance(c_.func, ast.Name) and len(c_.args) == 1 and src(c_.args[0]) == "self.state"
+                       and c_.func.id.startswith("_")}
+        for l_ in [x for x in walk_no_nested(co.node) if isinstance(x, ast.For) and isinstance(x.target, ast.Name)]:
+            for i in [x for x in l_.body if isinstance(x, ast.If)]:
+                t = i.test
+                if isinstance(t, ast.Call) and call_np(t) == "allclose" and len(t.args) >= 2 and src(t.args[0]) == "self.state" \
+                        and any(isinstance(c_, ast.Call) and isinstance(c_.func, ast.Name) and c_.func.id in fn_builders and [src(a_) for a_ in c_.args] == [l_.target.id] for c_ in ast.walk(t.args[1])) \
+                        and any(isinstance(s_, ast.Assign) and src(s_.targets[0]) == "self.state" and src(s_.value) == l_.target.id for s_ in i.body):
+                    shared = next(c_.func.id for c_ in ast.walk(t.args[1]) if isinstance(c_, ast.Call) and isinstance(c_.func, ast.Name) and c_.func.id in fn_builders)
         for l_ in [x for x in walk_no_nested(co.node) if isinstance(x, ast.For) and isinstance(l_t := x.target, ast.Name)]:
             for i in [x for x in l_.body if isinstance(x, ast.If)]:
                 t = i.test
@@ -468,6 +479,19 @@ def outcome_space(repo: Repo) -> List[Ob]:
                 defs_ = [d for d in (ocfg.reaching_defs(at, a.id) if at is not None else []) if d is not ocfg.entry and isinstance(d.ast, ast.Assign)]
                 if defs_:
                     alts = [d.ast.value for d in defs_]
+            # `jnp.array(list(TABLE))` over a module-level {0: …, 1: …} table: its keys in insertion order
+            def _keys_as_list(a_):
+                if call_np(a_) == "array" and a_.args and isinstance(a_.args[0], ast.Call) and isinstance(a_.args[0].func, ast.Name) and a_.args[0].func.id == "list" \
+                        and len(a_.args[0].args) == 1 and isinstance(a_.args[0].args[0], ast.Name):
+                    nm = a_.args[0].args[0].id
+                    for st_ in fi.module.tree.body:
+                        tg_ = st_.targets[0] if isinstance(st_, ast.Assign) and len(st_.targets) == 1 else (st_.target if isinstance(st_, ast.AnnAssign) else None)
+                        v_ = getattr(st_, "value", None)
+                        if isinstance(tg_, ast.Name) and tg_.id == nm and isinstance(v_, ast.Dict) and v_.keys and all(isinstance(k_, ast.Constant) and isinstance(k_.value, int) for k_ in v_.keys):
+                            lst = ast.List(elts=[ast.Constant(value=k_.value) for k_ in v_.keys], ctx=ast.Load())
+                            return ast.copy_location(ast.Call(func=a_.func, args=[lst], keywords=[]), a_)
+                return a_
+            alts = [_keys_as_list(a_) for a_ in alts]
             verdicts = []
             for a in alts:
                 verdicts.append(_sample_space_ok(a))
